@@ -71,3 +71,51 @@ Qed.
 Print Assumptions run_state_x_is_plain_ops.
 Print Assumptions inv_reachable_x.
 Print Assumptions reachable_x_transfer.
+
+(* ---------- what step_x writes: nothing new ---------- *)
+(* a frame too large for the buffer keeps its correlation id when it is replaced *)
+Lemma shrink_reply_same_id : forall cfg h m p,
+  match shrink_reply cfg (OSend h m p) with
+  | OSend h' m' p' => h' = h /\ p' = p /\ (m' = m \/ (oversize cfg m = true /\ exists id, correlation_id schema m = Some id /\ m' = err_msg (Some id) "RESPONSE_TOO_LARGE"))
+  | _ => False
+  end.
+Proof.
+  intros cfg h m p. unfold shrink_reply. destruct (oversize cfg m) eqn:E.
+  - destruct (correlation_id schema m) as [id|] eqn:C.
+    + repeat split; try reflexivity. right. split; [reflexivity | exists id; split; reflexivity].
+    + repeat split; try reflexivity. left; reflexivity.
+  - repeat split; try reflexivity. left; reflexivity.
+Qed.
+
+Lemma err_msg_correlation : forall id reason,
+  correlation_id schema (err_msg (Some id) reason) = Some id.
+Proof. intros id reason. reflexivity. Qed.
+
+(* every frame delivered after settling is a frame some plain step emitted, possibly shrunk; nothing is invented *)
+Lemma deliver_sound : forall cfg vs os o,
+  In o (deliver cfg vs os) ->
+  (In o os /\ match o with OSend _ _ _ => False | _ => True end) \/
+  (exists h m p, In (OSend h m p) os /\ existsb (N.eqb h) vs = false /\ o = shrink_reply cfg (OSend h m p)).
+Proof.
+  intros cfg vs os o H. unfold deliver in H. apply in_flat_map in H. destruct H as [x [Hx Ho]].
+  destruct x as [h m p|h m|h|h|c].
+  - destruct (existsb (N.eqb h) vs) eqn:E; [contradiction |].
+    destruct Ho as [Ho|[]]. right. exists h, m, p. repeat split; [exact Hx | exact E | symmetry; exact Ho].
+  - destruct Ho as [Ho|[]]. subst o. left. split; [exact Hx | exact I].
+  - destruct Ho as [Ho|[]]. subst o. left. split; [exact Hx | exact I].
+  - destruct Ho as [Ho|[]]. subst o. left. split; [exact Hx | exact I].
+  - destruct Ho as [Ho|[]]. subst o. left. split; [exact Hx | exact I].
+Qed.
+
+(* payload-bearing frames written by step_x carry a payload some plain step attached to a frame for the same connection *)
+Corollary deliver_payloads : forall cfg vs os h m q,
+  In (OSend h m (Some q)) (deliver cfg vs os) -> exists m0, In (OSend h m0 (Some q)) os.
+Proof.
+  intros cfg vs os h m q H. apply deliver_sound in H. destruct H as [[_ F]|[h0 [m0 [p0 [Hin [_ Heq]]]]]]; [contradiction |].
+  pose proof (shrink_reply_same_id cfg h0 m0 p0) as S. rewrite <- Heq in S. destruct S as [Hh [Hp _]].
+  subst h0 p0. exists m0. exact Hin.
+Qed.
+
+Print Assumptions deliver_sound.
+Print Assumptions deliver_payloads.
+Print Assumptions shrink_reply_same_id.
